@@ -393,7 +393,15 @@ def run(ctx):
         "also perturbed (dropped/swapped columns, bad indices, annotations, * headers, random cell text) into a "
         "malformed parse stream; flow rows generated per row type through the regenerated tables and through csv/xlsx "
         "files. non-trivial = distinct in-domain case whose layout packs something, renames a field, or whose cells "
-        "contain a separator, backslash or newline")
+        "contain a separator, backslash or newline. SESSIONS (harness/c07_sessions.py; distribution in stats.c07.sessions): "
+        "families of classes (roots, classes derived from an earlier class that override defaults/types, add fields, "
+        "re-define the renaming functions in conflict with the base or inherit them, shared sub-model classes, unrelated "
+        "classes with the same __name__ and field names) and sequences of 3-14 operations (round trip, unparse with "
+        "excluded headers, parse of rows written for this or another class or malformed, templated rows with {{ }} and "
+        "native {@ @} cells, csv export + re-read, a new RowParser) on ONE long-lived set of classes / RowParsers / "
+        "CellParser; values take the defaults other classes of the family have for a field of the same name; every "
+        "step is compared with the same operation on objects built afresh, with the extracted state machine "
+        "run_session, and (in-domain) with the instance written")
     v.coverage["samples"] = samples[:5]
     v.assumptions += [
         "cells contain no Jinja template opener ({{ {% {#): the model's cell parser is CellParser.parse without templating",
